@@ -827,8 +827,10 @@ class Dict(dict, base.Symbolic, pg_typing.CustomTyping):
     """Update Dict with the same semantic as update on standard dict."""
     updates = dict(other) if other else {}
     updates.update(kwargs)
+    # Keys are keys of this dict, not key paths (e.g. 'a.b' is a single key).
     self.rebind(
-        updates, raise_on_no_change=False, skip_notification=True)
+        {utils.KeyPath(k): v for k, v in updates.items()},
+        raise_on_no_change=False)
 
   def __ior__(self, other) -> 'Dict':   # pytype: disable=signature-mismatch
     """In-place union (`d |= other`) through symbolic `update`."""
